@@ -26,7 +26,39 @@ class Boom(Exception):
     pass
 
 
+class Vec:
+    """an element whose == is element-wise and answers with a list (like many array / series types): the answer to
+    `v == anything` is truthy for a non-empty Vec, whatever it is compared with"""
+
+    def __init__(self, xs):
+        self.xs = list(xs)
+
+    def __eq__(self, other):
+        return [x == other for x in self.xs]
+
+    def __add__(self, other):
+        return Vec(self.xs + (other.xs if isinstance(other, (Vec, Arr)) else [other]))
+
+    __hash__ = None
+
+
+class Ambiguous:
+    def __bool__(self):
+        raise ValueError('The truth value of an array with more than one element is ambiguous')
+
+
+class Arr(Vec):
+    """an element whose == answers with something that refuses to be used as a truth value (numpy arrays do that)"""
+
+    def __eq__(self, other):
+        return Ambiguous()
+
+    __hash__ = None
+
+
 def norm(v):
+    if isinstance(v, Vec):
+        return (type(v).__name__, [norm(x) for x in v.xs])
     if isinstance(v, BaseException):
         return ('EXC', type(v).__name__) + tuple(norm(a) for a in v.args)
     if isinstance(v, (list, tuple)):
@@ -165,6 +197,10 @@ op('fexc_drop_value', ('I',), same, lambda s: s.filter_exceptions(drop_exc_types
 op('fexc_keep_value_drop_all', ('I',), same, lambda s: s.filter_exceptions(drop_exc_types=Exception, keep_exc_types=ValueError),
    lambda xs: ref_filter_exc(xs, Exception, ValueError))
 op('peek2', ANY, same, lambda s: s.peek(interval=2, print_func=lambda m: None), lambda xs: xs, one_to_one=True)
+# parameter forms that the docstrings / type hints allow: an empty list for "none", a list of exception types
+op('fexc_drop_empty_list', ('I',), same, lambda s: s.filter_exceptions(drop_exc_types=[]), lambda xs: ref_filter_exc(xs, None, None))
+op('peek_exc_list', ANY, same, lambda s: s.peek(interval=None, exc_types=[ValueError], print_func=lambda m: None), lambda xs: xs,
+   one_to_one=True)
 for n in SIZES:
     op(f'head{n}', ANY, same, lambda s, n=n: s.head(n), lambda xs, n=n, peek=False: ref_head(xs, n, peek), one_to_one=(n == 6), slack=1)
     op(f'tail{n}', ANY, same, lambda s, n=n: s.tail(n), lambda xs, n=n: ref_tail(xs, n))
@@ -201,6 +237,8 @@ INPUTS = {
     'excs': ('I', lambda: [3, ValueError('v'), 4, 5]),
     'keyerr': ('I', lambda: [2, KeyError('k'), 6]),
     'nested': ('L', lambda: [[0, 1], [2], [], [3, 4]]),
+    # opaque elements with an unusual but legal ==: no operator has any business comparing the elements it carries
+    'opaque': ('I', lambda: [Vec([1, 2]), Arr([3, 4]), Vec([])]),
 }
 
 
